@@ -888,6 +888,10 @@ func c10RunAll(dir string) func(cs []c10Scn) [][]Failure {
 		wg.Wait()
 		for i := range cs {
 			if cs[i].Err != "" {
+				if !strings.HasPrefix(cs[i].Err, "child did not report") {
+					// three attempts in a row could not even connect / send: the server no longer accepts well-formed traffic
+					fails[i] = append(fails[i], Failure{Sig: "server/unreachable", Desc: fmt.Sprintf("pool=%d handletimeout=%dms udp=%v: the scripted client could not reach the running server in three attempts: %s", cs[i].Cfg.Pool, cs[i].Cfg.HT, cs[i].UDP, cs[i].Err)})
+				}
 				continue
 			}
 			for _, f := range c10Monitor(&cs[i]) {
